@@ -207,11 +207,12 @@ impl<D: ChunkData, E> Writer<D, E> {
         ensures
             /*@C08,C10,C11 #fh_wf*/ (!dropping ==> final(self).wf_full_ok()) && ((old(self).shared.is_ok() && !dropping) ==> final(self).wf()) && final(self).cap == old(self).cap && final(self).shared.wf(),
             /*@C08 #fh_noop_when_empty*/ (old(self).shared.is_ok() && old(self).buf@.len() == 0 && !dropping) ==> (r.is_ok() && *final(self) == *old(self) && final(log)@ == old(log)@),
-            /*@C08,C10 #fh_publishes*/ (old(self).shared.is_ok() && !(old(self).buf@.len() == 0 && !dropping)) ==> (
+            /*@C08 #fh_publishes*/ (old(self).shared.is_ok() && !(old(self).buf@.len() == 0 && !dropping)) ==> (
                 r.is_ok() && final(self).shared.is_ok() && final(self).buf@.len() == 0
                 && final(self).shared.queue() =~= (if old(self).buf@.len() > 0 { old(self).shared.queue().push(old(self).buf) } else { old(self).shared.queue() })
-                && final(self).shared.wdropped() == dropping
-                && final(self).shared.waker.is_none()
+                && final(self).shared.wdropped() == dropping),
+            /*@C10 #fh_wakes_whoever_waits*/ (old(self).shared.is_ok() && !(old(self).buf@.len() == 0 && !dropping)) ==> (
+                final(self).shared.waker.is_none()
                 && final(log)@ == log_after(old(log)@, old(self).shared.waker_id())),
             /*@C11 #fh_error_when_reader_gone*/ (!old(self).shared.is_ok() && old(self).buf@.len() > 0) ==> r.is_err(),
             /*@C11 #fh_dead_frame*/ !old(self).shared.is_ok() ==> (final(self).shared == old(self).shared && final(log)@ == old(log)@ && final(self).buf == old(self).buf),
